@@ -69,6 +69,7 @@ def gen_rand(rng, flavour):
     dnum = d if isinstance(d, float) else 0.0
     offs = [0, 0, dnum, dnum + U, 8 * U, dnum - U if dnum else U]
     threads = []
+    spelled = rng.random() < 0.15
     for ti in range(nthr):
         ncall = rng.choice([1, 1, 2, 3])
         callers = []
@@ -81,6 +82,8 @@ def gen_rand(rng, flavour):
                 'key': rng.randrange(nkeys), 'off': rng.choice(offs), 'style': st,
                 'param': rng.choice([U, dnum, dnum + 4 * U, dnum / 2 if dnum else 2 * U, 40 * U]),
             })
+            if spelled:
+                callers[-1]['spell'] = rng.choice(['int', 'float', 'bool'])
         threads.append({
             'start': rng.choice([0, 0, 0, U, dnum]),
             'callers': callers,
@@ -255,13 +258,17 @@ class CacheHarness:
                         me = aio.current_task()
                         emit('call', cid, c['key'], lname)
                         try:
+                            # the same argument spelled as an equal object of another type (1, 1.0, True): one key
+                            kk = c['key']
+                            sp = c.get('spell')
+                            kk = float(kk) if sp == 'float' else bool(kk) if sp == 'bool' and kk in (0, 1) else kk
                             if c['style'] == 'timeout':
                                 async with aio.timeout(c['param']):
-                                    r = await cf(c['key'])
+                                    r = await cf(kk)
                             elif c['style'] == 'waitfor':
-                                r = await aio.wait_for(cf(c['key']), c['param'])
+                                r = await aio.wait_for(cf(kk), c['param'])
                             else:
-                                r = await cf(c['key'])
+                                r = await cf(kk)
                             emit('ret', cid, 'ok', r)
                         except (HarnessError, HarnessSignal) as e:
                             emit('ret', cid, 'exc', 'HarnessError', e.args[0])
